@@ -185,6 +185,10 @@ class PairModel:
         sector = np.array([s[0] for s in self.states])
         gvals = np.array([gfunc(i, j, dx) for (i, j, dx) in self.gkeys] + [0.])
         g0 = gvals[self.gidx]          # index -1 (different sectors) -> the appended 0
+        # diffusion-equation residual of the supplied bare GF on rows whose neighbours all lie inside S
+        interior = np.array([all(self.index.get((i, j2, net.R_of(i, j2, self.x[n] + dx))) is not None for (j2, dx, c) in net.jumps[j])
+                             for n, (i, j, R) in enumerate(self.states)])
+        resid = float(np.abs(om0[interior] @ g0 - np.eye(S)[interior]).max()) if interior.any() else 0.
         eta0 = np.array([np.sqrt(pS[s[0]]) * etat[s[1]] for s in self.states])
         V = np.zeros((S, N))
         for n in range(S): V[n, sector[n]] = np.sqrt(p0[n])
@@ -202,7 +206,7 @@ class PairModel:
         L1raw = (Dfull - Dref + sym(db.T @ eta0) * 2 + sym(db.T @ (eta - eta0)) - sym(eta0.T @ dom @ eta)) / N
         blocking = sum(pS[i] * ell[i] for i in range(N)) / N
         return {'L0vv': L0vv, 'Lss': Lss, 'Lsv': Lsv, 'L1vv_raw': L1raw, 'L1vv': L1raw + blocking,
-                'uniform_solute': bool(np.allclose(pS, 1.0, atol=1e-12)), 'nstates': S,
+                'uniform_solute': bool(np.allclose(pS, 1.0, atol=1e-12)), 'nstates': S, 'gf_residual': resid,
                 'asym': float(max(np.abs(bSv.T @ etaS - (bSv.T @ etaS).T).max(), np.abs(bSv.T @ eta - (bSv.T @ eta).T).max()))}
 
 
